@@ -112,7 +112,7 @@ class QGen:
             c = r.choice(["one", "lit", "lit", "num", "num", "flt", "mk", "mk", "firstcat", "one"])
         else:
             pool = ["add", "add", "mulf", "flagged", "pair", "none_default", "unann", "cat", "cat", "ident", "withctx",
-                    "sub", "subin", "getvar", "tag", "let", "let", "flag", "state_variable", "ns", "attr_up", "attr_low",
+                    "sub", "subin", "filename", "getvar", "tag", "let", "let", "flag", "state_variable", "ns", "attr_up", "attr_low", "attr_camel",
                     "lit", "num", "firstcat", "optint", "optfb"]
             if self.allow_volatile:
                 pool += ["vol", "nocache"]
@@ -190,6 +190,11 @@ class QGen:
             a = [encode_token(r.choice(["add-1", "cat-z", "ident", "add-2/cat-w", "mulf-2/ident"]))]
             self.feat("param.context")
             self.feat("sub_evaluation.injected_input")
+            self._numeric_prefix = False
+        elif c == "filename":
+            # labels the result from inside the pipeline (a trailing file name, if any, has the last word)
+            a = [r.choice(["w.txt", "v.json", "u.b", "noext", "p.tar.gz", "q.html"])]
+            self.feat("cmd.filename_label")
             self._numeric_prefix = False
         elif c == "getvar" or c == "state_variable":
             a = [r.choice(NAMES + ["active_namespaces", "nope"])]
